@@ -636,7 +636,9 @@ def random_spec(rng, depth: int = 2, typevars: bool = True):
         metas = []
         for _ in range(rng.randrange(1, 3)):
             m = random_meta(rng, depth, typevars)
-            if m not in metas:
+            # annotate_value() never keeps two metadata items that compare equal; two different specs can build equal
+            # items (hasattr name [1.0] / hasattr name [1]: KnownValue.__eq__ compares unhashable literals with ==)
+            if not any(_builds_equal(m, m2) for m2 in metas):
                 metas.append(m)
         return ["annotated", inner, metas]
     if r == 7:
@@ -667,6 +669,20 @@ def _same_literal(s1, s2) -> bool:
     a = eval(s1[1], {"__builtins__": {"bytearray": bytearray}})
     b = eval(s2[1], {"__builtins__": {"bytearray": bytearray}})
     return type(a) is type(b) and a == b
+
+
+def _builds_equal(s1, s2) -> bool:
+    """Do two specs build equal objects?  Equal specs do; so do specs that differ only in unhashable literals that
+    compare equal (see _same_literal)."""
+    if s1 == s2:
+        return True
+    if isinstance(s1, list) and isinstance(s2, list) and s1 and s2 and isinstance(s1[0], str) and isinstance(s2[0], str):
+        if _same_literal(s1, s2):
+            return True
+        return s1[0] == s2[0] and len(s1) == len(s2) and all(_builds_equal(a, b) for a, b in zip(s1[1:], s2[1:]))
+    if isinstance(s1, list) and isinstance(s2, list):
+        return len(s1) == len(s2) and all(_builds_equal(a, b) for a, b in zip(s1, s2))
+    return False
 
 
 def _is_bottom_spec(s) -> bool:
